@@ -765,11 +765,11 @@ func (multi *MultiEpoch) processSlotTransactions(
 			return true
 		}
 
-		if !filter.GetVote() && IsSimpleVoteTransaction(&tx) { // If vote is false, we should filter out vote transactions
+		if filter.Vote != nil && !filter.GetVote() && IsSimpleVoteTransaction(&tx) { // If vote is false, we should filter out vote transactions
 			return false
 		}
 
-		if !filter.GetFailed() { // If failed is false, we should filter out failed transactions
+		if filter.Failed != nil && !filter.GetFailed() { // If failed is false, we should filter out failed transactions
 			err := getErr(meta)
 			if err != nil {
 				return false
